@@ -14,7 +14,6 @@
 package main
 
 import (
-	"bytes"
 	"crypto/sha256"
 	stdx509 "crypto/x509"
 	"encoding/base64"
@@ -23,8 +22,10 @@ import (
 	"encoding/json"
 	"fmt"
 	"math/big"
+	"math/rand"
 	"os"
 	"sort"
+	"strconv"
 	"strings"
 	"time"
 
@@ -79,6 +80,8 @@ type Case struct {
 	Wire   any            `json:"wire"`
 	Parsed Parsed         `json:"parsed"`
 	Checks []int          `json:"checks,omitempty"`
+	// cases computed by TLC from harness-drawn random models carry their own query list
+	Queries []Query `json:"queries,omitempty"`
 	// replay files carry one query with its verdict instead of the whole vector
 	Query   *Query `json:"query,omitempty"`
 	Verdict int    `json:"verdict,omitempty"`
@@ -86,24 +89,34 @@ type Case struct {
 }
 
 // known abstract ids (for mapping parsed hashes / names back)
-var keyIDs = []string{"K1", "K2", "K3", "KS1", "KS2", "KD"}
-var nameIDs = []string{"N1", "N2", "N3", "S1", "S2", "D"}
+var keyIDs = []string{"K1", "K2", "K3", "K4", "K5", "K6", "KS1", "KS2", "KS3", "KS4", "KD"}
+var nameIDs = []string{"N1", "N2", "N3", "N4", "N5", "N6", "S1", "S2", "S3", "S4", "D"}
+
+var hashToKey, rawToName map[string]string
 
 func keyOfHash(h []byte) string {
-	for _, k := range keyIDs {
-		x := rev.SPKIHash(k)
-		if bytes.Equal(x[:], h) {
-			return k
+	if hashToKey == nil {
+		hashToKey = map[string]string{}
+		for _, k := range keyIDs {
+			x := rev.SPKIHash(k)
+			hashToKey[string(x[:])] = k
 		}
+	}
+	if k, ok := hashToKey[string(h)]; ok {
+		return k
 	}
 	return "?" + hex.EncodeToString(h)
 }
 
 func nameOfRaw(raw []byte) string {
-	for _, n := range nameIDs {
-		if bytes.Equal(pki.RawName(n), raw) {
-			return n
+	if rawToName == nil {
+		rawToName = map[string]string{}
+		for _, n := range nameIDs {
+			rawToName[string(pki.RawName(n))] = n
 		}
+	}
+	if n, ok := rawToName[string(raw)]; ok {
+		return n
 	}
 	return "?" + hex.EncodeToString(raw)
 }
@@ -519,7 +532,7 @@ func judge(c Case, queries []Query, each func(finding)) (nchecks int) {
 	if err != nil {
 		sig := base("parse-error")
 		cc := c
-		cc.Checks = nil
+		cc.Checks, cc.Queries = nil, nil
 		each(finding{fmt.Sprintf("%s: well-formed encoding rejected: %v", c.Fmt, err), sig, cc})
 		return 0
 	}
@@ -533,7 +546,7 @@ func judge(c Case, queries []Query, each func(finding)) (nchecks int) {
 			sig["part"] = "lists"
 		}
 		cc := c
-		cc.Checks = nil
+		cc.Checks, cc.Queries = nil, nil
 		each(finding{fmt.Sprintf("%s: parsed structure %s, specification demands %s", c.Fmt, got, want), sig, cc})
 	}
 	run := func(level string, chk func(Query) bool, qi int, q Query, verdict int) {
@@ -548,7 +561,7 @@ func judge(c Case, queries []Query, each func(finding)) (nchecks int) {
 			sig["panic"] = checkPanic != ""
 			sig["fmt"], sig["kind"], sig["level"], sig["want"], sig["got"] = c.Fmt, "check", level, verdict == 1, rep
 			cc := c
-			cc.Checks, cc.Query, cc.Verdict, cc.Level = nil, &q, verdict, level
+			cc.Checks, cc.Queries, cc.Query, cc.Verdict, cc.Level = nil, nil, &q, verdict, level
 			each(finding{fmt.Sprintf("%s Check (%s): certificate issuer=%s/%s serial=%x subject=%s/%s: reported=%v, specification demands %v",
 				c.Fmt, level, q.IName, q.IKey, []byte(q.Serial), q.Subj, q.SKey, rep, verdict == 1), sig, cc})
 		}
@@ -564,6 +577,9 @@ func judge(c Case, queries []Query, each func(finding)) (nchecks int) {
 		if sc != nil && (c.Level == "" || c.Level == "struct") {
 			run("struct", func(q Query) bool { return checkReal("crlset", parsedSet{crlset: sc}, q) }, qi, q, verdict)
 		}
+	}
+	if c.Queries != nil && c.Query == nil {
+		queries = c.Queries
 	}
 	if c.Query != nil {
 		doq(0, *c.Query, c.Verdict)
@@ -585,7 +601,11 @@ func main() {
 	switch os.Args[1] {
 	case "replay-gen":
 		var queries []Query
-		err := obs.ReadLines(os.Args[2], func(line []byte) error {
+		var err error
+		if os.Args[2] == "-" {
+			queries = []Query{}
+		}
+		err = obs.ReadLines(map[bool]string{true: os.DevNull, false: os.Args[2]}[os.Args[2] == "-"], func(line []byte) error {
 			var u struct {
 				Queries []Query `json:"queries"`
 			}
@@ -595,7 +615,7 @@ func main() {
 			queries = u.Queries
 			return nil
 		})
-		if err != nil || len(queries) == 0 {
+		if err != nil || (len(queries) == 0 && os.Args[2] != "-") {
 			obs.Fatal("queries: %v", err)
 		}
 		seen := map[string]bool{}
@@ -626,6 +646,9 @@ func main() {
 		obs.Stat("checks", nchecks)
 		obs.Stat("nontrivial", nontriv)
 		obs.Stat("disagreements", bad)
+	case "models":
+		n, _ := strconv.Atoi(os.Args[3])
+		models(os.Args[2], n)
 	case "replay":
 		var c Case
 		sig := obs.ReadReplay(os.Args[2], &c)
@@ -648,4 +671,82 @@ func main() {
 	default:
 		obs.Fatal("unknown command")
 	}
+}
+
+// ---- random models for RevSetsRand.tla ------------------------------------------------------
+
+func randSerial(rng *rand.Rand) rev.Bytes {
+	if rng.Intn(4) == 0 {
+		return rev.ContentFromInt(big.NewInt(int64(rng.Intn(400))))
+	}
+	b := make([]byte, 1+rng.Intn(19))
+	rng.Read(b)
+	return rev.ContentFromInt(new(big.Int).SetBytes(b))
+}
+
+// models writes n seeded random abstract sets with their own query certificates.  Only abstract
+// records are written; wire bytes, demanded parse result and verdicts come back from TLC.
+func models(path string, n int) {
+	rng := rand.New(rand.NewSource(obs.Seed()))
+	w := obs.NewWriter(path)
+	fmts := []string{"crlset", "onecrl", "sst"}
+	for i := 0; i < n; i++ {
+		f := fmts[i%3]
+		ni := 1 + rng.Intn(5)
+		issuers := make([]Issuer, ni)
+		for j := range issuers {
+			issuers[j] = Issuer{N: fmt.Sprintf("N%d", j+1), K: fmt.Sprintf("K%d", j+1)}
+		}
+		ne := rng.Intn(40)
+		if f == "sst" {
+			ne = rng.Intn(12) // every entry is a certificate
+		}
+		set := Set{Entries: []Entry{}, BKeys: []string{}, BSubj: []BSubj{}}
+		for j := 0; j < ne; j++ {
+			e := Entry{Iss: issuers[rng.Intn(ni)], S: randSerial(rng)}
+			if j > 0 && rng.Intn(6) == 0 {
+				e.S = set.Entries[rng.Intn(j)].S // same serial, maybe another issuer
+			}
+			set.Entries = append(set.Entries, e)
+		}
+		if f == "crlset" {
+			for _, k := range []string{"K1", "K2", "K6", "KS1", "KS3"} {
+				if rng.Intn(4) == 0 {
+					set.BKeys = append(set.BKeys, k)
+				}
+			}
+		}
+		if f == "onecrl" {
+			for j := rng.Intn(3); j > 0; j-- {
+				set.BSubj = append(set.BSubj, BSubj{Subj: fmt.Sprintf("S%d", 1+rng.Intn(4)), Key: fmt.Sprintf("KS%d", 1+rng.Intn(4))})
+			}
+		}
+		v := map[string]any{"strip": rng.Intn(2) == 0 && f != "sst", "bfirst": rng.Intn(2) == 0 && f == "onecrl", "nprops": 0}
+		if f == "sst" {
+			v["nprops"] = rng.Intn(3)
+		}
+		var qs []Query
+		for j := 0; j < 24; j++ {
+			q := Query{IName: fmt.Sprintf("N%d", 1+rng.Intn(6)), IKey: fmt.Sprintf("K%d", 1+rng.Intn(6)),
+				Serial: randSerial(rng), Subj: fmt.Sprintf("S%d", 1+rng.Intn(4)), SKey: fmt.Sprintf("KS%d", 1+rng.Intn(4))}
+			if len(set.Entries) > 0 && rng.Intn(3) > 0 {
+				e := set.Entries[rng.Intn(len(set.Entries))]
+				q.Serial = e.S
+				switch rng.Intn(4) {
+				case 0: // same serial, issuer left random
+				case 1:
+					q.IName, q.IKey = e.Iss.N, fmt.Sprintf("K%d", 1+rng.Intn(6)) // name matches, key maybe not
+				default:
+					q.IName, q.IKey = e.Iss.N, e.Iss.K
+				}
+			} else if rng.Intn(2) == 0 {
+				j := rng.Intn(ni)
+				q.IName, q.IKey = issuers[j].N, issuers[j].K
+			}
+			qs = append(qs, q)
+		}
+		w.Write(map[string]any{"fmt": f, "set": set, "var": v, "queries": qs})
+	}
+	w.Close()
+	obs.Stat("models", n)
 }
